@@ -200,6 +200,60 @@ def rule_store_flow(ctx, repo):
     ctx.check(ok, "C15.flow", "DAE.write_npz/append", "incremental write appends rows from idx_ptr on", "incremental write no longer appends exactly the new rows", w.W())
 
 
+def rule_fresh_view(ctx, repo):
+    """`ts.txyz` (and t, x, y, z) are unpacked lazily on their FIRST access only (DAETimeSeries.__getattr__); afterwards they are cached
+    attributes.  A reader that can run when the attribute already exists must refresh it itself: on the chunked off-load path
+    (TDS.run -> save_output -> DAE.write_npz under limit_store) nobody else unpacks, so every read of `ts.txyz` there is dominated by an
+    unrestricted `ts.unpack()` in write_npz.  Also: header and body of the csv export are built from the same index list."""
+    w = F.method(repo, "DAE", "write_npz", DAE)
+    g = w.g
+    lim = [tn for tn in g.nodes() if g.data(tn)["kind"] == "test" and "limit_store" in src(g.data(tn)["ast"].test)]
+    if not lim:
+        ctx.undecided("C15.fresh", "DAE.write_npz", "limit_store branch not recognised", w.W())
+    else:
+        neg = src(g.data(lim[0])["ast"].test).strip().startswith("not")
+        lab = "false" if neg else "true"
+        reads = []
+        for n in g.nodes():
+            a = g.data(n).get("ast")
+            if a is None or g.data(n)["kind"] != "stmt" or not g.guarded_by(n, lim[0], lab):
+                continue
+            if any(isinstance(x, ast.Attribute) and x.attr == "txyz" and isinstance(x.ctx, ast.Load) for x in ast.walk(a)):
+                reads.append(n)
+        full = []
+        for n in g.nodes():
+            a = g.data(n).get("ast")
+            if g.data(n)["kind"] != "stmt" or a is None:
+                continue
+            for c in [x for x in ast.walk(a) if isinstance(x, ast.Call)]:
+                if (dotted(c.func) or "").endswith("ts.unpack") and not any(k.arg == "attr" for k in c.keywords) and len(c.args) < 2:
+                    full.append(n)
+        for k, rd in enumerate(reads):
+            ok = g.must_pass(g.entry, rd, full)[0] if full else False
+            ctx.check(ok, "C15.fresh", "DAE.write_npz/chunk-read#%d" % k, "the chunk is cut from a view refreshed in this call",
+                      "`%s` reads the cached ts.txyz without an unrestricted ts.unpack() before it: when the attribute already exists (resumed "
+                      "run, or a restricted unpack) the rows in memory are not the rows written" % src(g.data(rd)["ast"]), w.W(rd))
+    # csv export: one index list for header and body
+    e = F.method(repo, "TDSData", "export_csv", PLOT)
+    ge = e.g
+    hdr = [n for n in ge.nodes() if ge.data(n)["kind"] == "stmt" and any(isinstance(c, ast.Call) and (dotted(c.func) or "").endswith("get_header")
+                                                                        for c in ast.walk(ge.data(n)["ast"]))]
+    body = [n for n in ge.nodes() if ge.data(n)["kind"] == "stmt" and any(isinstance(c, ast.Call) and (dotted(c.func) or "").endswith("get_values")
+                                                                         for c in ast.walk(ge.data(n)["ast"]))]
+    if not hdr or not body:
+        ctx.undecided("C15.fresh", "TDSData.export_csv", "header/body construction not recognised", e.W())
+    else:
+        def arg_name(n, fname):
+            for c in ast.walk(ge.data(n)["ast"]):
+                if isinstance(c, ast.Call) and (dotted(c.func) or "").endswith(fname) and c.args:
+                    return dotted(c.args[0])
+        hn, bn = arg_name(hdr[0], "get_header"), arg_name(body[0], "get_values")
+        rew = [n for n in e.assigns(bn) if ge.reachable(hdr[0], n) and ge.reachable(n, body[0])] if bn else []
+        ctx.check(hn == bn and not rew, "C15.fresh", "TDSData.export_csv/index-list", "labels and values are selected by the same index list",
+                  "the index list is %s between the header and the body: columns end up under the labels of other variables" % (
+                      "re-bound (`%s`)" % src(ge.data(rew[0])["ast"]) if rew else "not the same variable (%s vs %s)" % (hn, bn)), e.W(rew[0]) if rew else e.W())
+
+
 def rule_replay(ctx, repo):
     """csv replay: the row pointer and the clock advance together.  calc_h (csv mode) moves k_csv to the next row and sets
     h = time(row) - t, so `data_csv[k_csv, 0] == dae.t` -- the invariant under which _csv_data_to_dae loads the row OF the current
@@ -246,6 +300,7 @@ def rule_replay(ctx, repo):
 
 
 def run(ctx):
+    ctx.rule("C15.fresh", "cached views are refreshed by their readers on the off-load path; header and body share the index list", 3)
     ctx.rule("C15.replay", "csv replay: row pointer and clock advance together at every calc_h call site", 3)
     ctx.rule("C15.order", "channel order t,x,y,z agrees at writer/reader sites (unpack, lst, npz, plot loader, csv replay)", 11)
     ctx.rule("C15.copy", "stored rows are fresh arrays keyed by a float copy of t; channels paired", 4)
@@ -258,3 +313,4 @@ def run(ctx):
     rule_index_set(ctx, repo)
     rule_store_flow(ctx, repo)
     rule_replay(ctx, repo)
+    rule_fresh_view(ctx, repo)
